@@ -23,3 +23,8 @@ add("C01","exploration",
  "Held on the generated files counted in the evidence (byte classes x containers x M x transport cells); files up to 2 MiB (thorough).",
  "Trusted: compress/gzip, DataDog/zstd writer for test inputs; clients must run with --logLevel error; known findings c01.* are recognised by exact prediction only.",
  "DESIGN.md §2 C01")
+add("C12","exploration",
+ "runtime monitoring: seeded generator of patterns/options containing the wire format's own delimiters; real dgrep end to end through encoder and server-side decoder (serverless, sample over SSH); oracle = lines selected by the user's pattern compiled with Go regexp in the harness + context model, and the output mode",
+ "Held on the generated (pattern, flags, options, mode) combinations counted in the evidence.",
+ "Trusted: Go regexp; C03's reference context model; patterns without NUL/0xAC.",
+ "DESIGN.md §2 C12")
